@@ -26,7 +26,8 @@
    the corresponding invariants AND Independence (vacuity control of the P layer).            *)
 EXTENDS Naturals, Sequences, FiniteSets, TLC, Json
 
-CONSTANTS MaxJobs, MaxFail, GenDepth, WeakDeps, WeakOnce, WeakBound
+CONSTANTS MaxJobs, MaxFail, GenDepth, WeakDeps, WeakOnce, WeakBound,
+          Dags      \* catalogue indices Init may choose
 
 Catalogue == <<
   [name |-> "chain",   pk |-> {"r", "a", "l"},
@@ -46,7 +47,16 @@ Catalogue == <<
    co |-> [r |-> "r", a |-> "a", l1 |-> "l", l2 |-> "l"], roots |-> {"r"}],
   [name |-> "tworoots", pk |-> {"r1", "r2", "l"},
    deps |-> [r1 |-> {"l"}, r2 |-> {"l"}, l |-> {}],
-   co |-> [r1 |-> "r1", r2 |-> "r2", l |-> "l"], roots |-> {"r1", "r2"}]
+   co |-> [r1 |-> "r1", r2 |-> "r2", l |-> "l"], roots |-> {"r1", "r2"}],
+  \* x is needed by a (shallow) and at the end of the chain w-v-u-t-s (five levels deeper); y is independent.
+  \* With 2 jobs the expansion of the deep path is still queued for a job slot when x fails (both slots are held
+  \* by the scripts of x and y): s asks for x only AFTER x has failed and must see the same failure.
+  \* (generation / trace validation only: too large for the exhaustive configs, which use Dags = 1..6)
+  [name |-> "deepshare", pk |-> {"r", "a", "y", "w", "v", "u", "t", "s", "x"},
+   deps |-> [r |-> {"a", "y", "w"}, a |-> {"x"}, y |-> {}, w |-> {"v"}, v |-> {"u"}, u |-> {"t"}, t |-> {"s"},
+             s |-> {"x"}, x |-> {}],
+   co |-> [r |-> "r", a |-> "a", y |-> "y", w |-> "w", v |-> "v", u |-> "u", t |-> "t", s |-> "s", x |-> "x"],
+   roots |-> {"r"}]
 >>
 
 VARIABLES di, jobs, kg,      \* the invocation: catalogue index, -j, --keep-going
@@ -84,7 +94,7 @@ SeqTerm(s) == <<"res", s, [x \in Deps(s) |-> SeqTerm(x)]>>
 H(r) == hist' = IF GenDepth > 0 THEN Append(hist, r) ELSE hist
 
 Init ==
-  /\ di \in 1..Len(Catalogue) /\ jobs \in 1..MaxJobs /\ kg \in BOOLEAN
+  /\ di \in Dags /\ jobs \in 1..MaxJobs /\ kg \in BOOLEAN
   /\ status = [s \in Steps |-> "new"] /\ runs = [s \in Steps |-> 0]
   /\ inp = [s \in Steps |-> <<>>] /\ content = [s \in Steps |-> <<"none">>]
   /\ noticed = FALSE /\ fin = "run" /\ nfail = 0 /\ fb \in 0..MaxFail
